@@ -105,3 +105,142 @@ Proof.
   intros q Hq. destruct (downloaded_carries_date f v p fs (Some a) d a fs' sz Hh q Hq) as [i [Hl [Hm Hz]]].
   rewrite Hl. destruct i as [s m]. cbn in Hm, Hz. subst. reflexivity.
 Qed.
+
+(* ---------------------------------------------------------------- frame: a file only touches its own paths *)
+Lemma lookup_set_all_other ps : forall fs i q, ~ In q ps -> lookup (set_all fs ps i) q = lookup fs q.
+Proof.
+  intros fs i q Hq. rewrite lookup_set_all. destruct (string_mem q ps) eqn:E; [|reflexivity].
+  exfalso. apply Hq. apply string_mem_true_In. exact E.
+Qed.
+
+Lemma handle_frame f v p fs b q :
+  In p (vpaths v) -> ~ In q (vpaths v) ->
+  match handle f v p fs b with
+  | VRetry _ fs' | VDone _ _ fs' => lookup fs' q = lookup fs q
+  | VBreak _ => True
+  end.
+Proof.
+  intros Hp Hq. assert (Hne : q <> p) by (intros ->; contradiction).
+  unfold handle. destruct b as [| |ann date del ab].
+  - destruct (ignore_errors f || ignore_missing f); [exact I|reflexivity].
+  - destruct (ignore_errors f); [exact I|reflexivity].
+  - destruct (N.ltb 0 (vsize v) && _); [destruct (ignore_errors f); [exact I|reflexivity]|].
+    destruct (positive_opt ann).
+    + destruct (negb (need_update fs p ann date)).
+      * destruct (lookup fs p); [apply lookup_set_all_other; exact Hq|reflexivity].
+      * destruct ab; [apply lookup_set_other; exact Hne|].
+        destruct (N.ltb 0 (vsize v) && _); [apply lookup_set_other; exact Hne|].
+        rewrite lookup_set_all_other by exact Hq. apply lookup_set_other; exact Hne.
+    + destruct ab; [apply lookup_set_other; exact Hne|].
+      destruct (N.ltb 0 (vsize v) && _); [apply lookup_set_other; exact Hne|].
+      rewrite lookup_set_all_other by exact Hq. apply lookup_set_other; exact Hne.
+Qed.
+
+Lemma try_path_frame f v p s q : In p (vpaths v) -> ~ In q (vpaths v) ->
+  forall tries n fs nreq err,
+  match try_path f v p s tries n fs nreq err with
+  | PDone _ _ fs' _ _ | PNext fs' _ _ => lookup fs' q = lookup fs q
+  end.
+Proof.
+  intros Hp Hq. induction tries as [|t IH]; intros n fs nreq err; cbn [try_path]; [reflexivity|].
+  pose proof (handle_frame f v p fs (rbody (nth_resp s n)) q Hp Hq) as Hh.
+  destruct (handle f v p fs (rbody (nth_resp s n))) as [d|e0 fs0|um sz fs0].
+  - reflexivity.
+  - specialize (IH (S n) fs0 (nreq + pre_retries (nth_resp s n) + 1) (err || e0)).
+    destruct (try_path f v p s t (S n) fs0 _ _); rewrite IH; exact Hh.
+  - exact Hh.
+Qed.
+
+Lemma try_paths_frame f u v q : ~ In q (vpaths v) ->
+  forall ps pi fs reqs err, (forall p, In p ps -> In p (vpaths v)) ->
+  match try_paths f u v ps pi fs reqs err with
+  | VRDone _ _ _ fs' _ _ | VRNext fs' _ _ => lookup fs' q = lookup fs q
+  end.
+Proof.
+  intros Hq. induction ps as [|p r IH]; intros pi fs reqs err Hsub; cbn [try_paths]; [reflexivity|].
+  pose proof (try_path_frame f v p (script_of u p) q (Hsub p (or_introl eq_refl)) Hq max_tries 0 fs 0 false) as Ht.
+  destruct (try_path f v p (script_of u p) max_tries 0 fs 0 false) as [um sz fs0 k e|fs0 k e].
+  - exact Ht.
+  - specialize (IH (S pi) fs0 (reqs ++ [(p, k)]) (err || e) (fun x Hx => Hsub x (or_intror Hx))).
+    destruct (try_paths f u v r (S pi) fs0 _ _); rewrite IH; exact Ht.
+Qed.
+
+Lemma try_variants_frame f u q : forall vs vi fs reqs err,
+  (forall v, In v vs -> ~ In q (vpaths v)) ->
+  lookup (r_fs (try_variants f u vs vi fs reqs err)) q = lookup fs q.
+Proof.
+  induction vs as [|v r IH]; intros vi fs reqs err Hq; cbn [try_variants]; [reflexivity|].
+  pose proof (try_paths_frame f u v q (Hq v (or_introl eq_refl)) (vpaths v) 0 fs reqs err (fun p Hp => Hp)) as Ht.
+  destruct (try_paths f u v (vpaths v) 0 fs reqs err) as [um sz pi fs0 reqs0 e|fs0 reqs0 e].
+  - exact Ht.
+  - rewrite (IH (S vi) fs0 reqs0 e (fun w Hw => Hq w (or_intror Hw))). exact Ht.
+Qed.
+
+Lemma download_frame f u fs q : ~ In q (all_paths f) -> lookup (r_fs (download_file f u fs)) q = lookup fs q.
+Proof.
+  intros Hq. unfold download_file. apply try_variants_frame. intros v Hv Hin. apply Hq.
+  unfold all_paths. apply in_flat_map. exists v. split; assumption.
+Qed.
+
+Lemma process_frame swallow f u fs q :
+  ~ In q (all_paths f) -> lookup (fs_after (process_file swallow f u fs false) fs) q = lookup fs q.
+Proof.
+  intros Hq. unfold process_file. destruct (precheck f fs); [reflexivity|]. cbn [fs_after]. apply download_frame. exact Hq.
+Qed.
+
+Lemma stage_frame swallow u q : forall files fs,
+  ~ In q (flat_map all_paths files) -> lookup (snd (run_stage swallow files u fs)) q = lookup fs q.
+Proof.
+  induction files as [|f r IH]; intros fs Hq; cbn [run_stage]; [reflexivity|].
+  cbn [flat_map] in Hq.
+  specialize (IH (fs_after (process_file swallow f u fs false) fs) (fun H => Hq (in_or_app _ _ _ (or_intror H)))).
+  destruct (run_stage swallow r u (fs_after (process_file swallow f u fs false) fs)) as [rs fs'].
+  cbn [snd] in *. rewrite IH. apply process_frame. intros H. apply Hq. apply in_or_app. left. exact H.
+Qed.
+
+(* ---------------------------------------------------------------- a whole stage from ANY initial state *)
+Fixpoint disjoint_files (l : list dfile) : Prop :=
+  match l with
+  | [] => True
+  | f :: r => (forall q, In q (all_paths f) -> ~ In q (flat_map all_paths r)) /\ disjoint_files r
+  end.
+
+(* what "obtained" means for one queued file in the final filesystem *)
+Definition complete_in (f : dfile) (r : file_result) (fs : lfs) : Prop :=
+  match r with
+  | FPre vi => exists v i, nth_error (variants f) vi = Some v /\ lookup fs (vsource v) = Some i /\ fsize i = dsize f
+  | FRun res =>
+      match out_variant (r_out res) with
+      | Some vi => exists v, nth_error (variants f) vi = Some v /\ sound v fs
+      | None => True
+      end
+  | FCrash _ _ => True
+  end.
+
+Lemma stage_sound swallow u : forall files fs,
+  disjoint_files files ->
+  (forall f v, In f files -> In v (variants f) -> In (vsource v) (vpaths v)) ->
+  let '(rs, fs') := run_stage swallow files u fs in
+  forall f r, In (f, r) (combine files rs) -> complete_in f r fs'.
+Proof.
+  induction files as [|f rest IH]; intros fs Hd Hwf; cbn [run_stage]; [intros ? ? []|].
+  destruct Hd as [Hdf Hdr].
+  set (x := process_file swallow f u fs false).
+  specialize (IH (fs_after x fs) Hdr (fun g v Hg Hv => Hwf g v (or_intror Hg) Hv)).
+  pose proof (stage_frame swallow u) as Hfr.
+  destruct (run_stage swallow rest u (fs_after x fs)) as [rs fs'] eqn:Er.
+  intros g r [Heq|Hin]; [|apply IH; exact Hin]. injection Heq as <- <-.
+  assert (Hkeep : forall q, In q (all_paths f) -> lookup fs' q = lookup (fs_after x fs) q).
+  { intros q Hq. specialize (Hfr q rest (fs_after x fs) (Hdf q Hq)). rewrite Er in Hfr. exact Hfr. }
+  unfold complete_in. subst x. unfold process_file in *. destruct (precheck f fs) as [vi|] eqn:Ep.
+  - unfold precheck in Ep. destruct (check_size f); [|discriminate].
+    destruct (precheck_from_sound f _ _ _ _ Ep) as [_ [v [i [Hn [Hl Hs]]]]]. rewrite Nat.sub_0_r in Hn.
+    exists v, i. split; [exact Hn|]. split; [|exact Hs].
+    cbn [fs_after] in Hkeep. rewrite Hkeep; [exact Hl|].
+    unfold all_paths. apply in_flat_map. exists v. split; [eapply nth_error_In; exact Hn|].
+    apply (Hwf f v (or_introl eq_refl)). eapply nth_error_In; exact Hn.
+  - cbn [fs_after] in Hkeep. destruct (out_variant (r_out (download_file f u fs))) as [vi|] eqn:Eo; [|exact I].
+    destruct (obtained_sound_lemma f u fs vi Eo) as [v [Hn Hs]]. exists v. split; [exact Hn|].
+    intros q Hq. destruct (Hs q Hq) as [i [Hl Hz]]. exists i. split; [|exact Hz].
+    rewrite Hkeep; [exact Hl|]. unfold all_paths. apply in_flat_map. exists v. split; [eapply nth_error_In; exact Hn|exact Hq].
+Qed.
